@@ -255,6 +255,29 @@ func (s *sim) makeWithdraw(v *view, spec TxSpec) *txInfo {
 		}
 		outs = append(outs, o)
 	}
+	switch spec.Amt {
+	case 1, 6:
+		// individually non-negative amounts whose sum wraps past 2^64 / 2^63:
+		// copies of the first output (the same side-chain transaction may pay
+		// several outputs) at 2^62 sela each
+		n := map[int]int{1: 4, 6: 2}[spec.Amt]
+		first := *outs[0]
+		var big []*common2.Output
+		for i := 0; i < n; i++ {
+			o := first
+			o.Value = 1 << 62
+			big = append(big, &o)
+		}
+		if spec.Amt == 1 {
+			outs = append(big, outs...) // 4 x 2^62 = 0 mod 2^64: the rest still "balances"
+		} else {
+			outs = big
+		}
+		s.c.Fault("withdraw:amounts-wrap")
+	case 4:
+		outs[0].Value += common.Fixed64(fee + 1) // outputs exceed inputs by one sela
+		s.c.Fault("withdraw:outputs-exceed-inputs-by-one")
+	}
 	pld := &payload.WithdrawFromSideChain{BlockHeight: 1, GenesisBlockAddress: cc.acc.Address}
 	if wf.ver == 0 {
 		pld.SideChainTransactionHashes = wf.hashes
